@@ -234,6 +234,7 @@ class HarnessSpec:
     exploratory: bool = False        # result recorded, never part of the exit status
     qual: str = ""                   # module path prefix ("a::b::") for --exact matching
     solver: str = ""                 # per-harness SAT back end (overrides the group's --solver)
+    weight: int = 0                  # `// @weight N`: expected cost; heavier harnesses are started first
 
 
 @dataclass
@@ -457,6 +458,7 @@ def parse_harness_specs(src: str, defaults: dict | None = None) -> list[HarnessS
             bounds=meta.get("bounds", ""),
             exploratory=meta.get("exploratory", "") in ("1", "true", "yes"),
             solver=meta.get("solver", ""),
+            weight=int(meta.get("weight", 0) or 0),
         ))
     return specs
 
